@@ -53,6 +53,37 @@ def scenarios(tier):
     return S
 
 
+def random_scenario(rnd, i):
+    """Seeded random sharing pattern: two leaf blocks over the same factor objects that both use one or two shared
+    constraint objects, a Merge of the two, a Repeat of the first and a Nest that uses the second as inner block."""
+    fc = rnd.choice([C2, CW, C3])
+    factors = [A2, B2, fc, TRA, {'name': 'E', 'levels': ['e0', 'e1']}]
+    menu = [['AtMostKInARow', rnd.randint(1, 2), 'C', 'c0'], ['AtLeastKInARow', 2, 'C', 'c1'], ['ExactlyK', rnd.randint(1, 2), 'C', 'c0'],
+            ['Pin', rnd.choice([0, 1, -1]), 'C', 'c0'], ['ExactlyKInARow', 2, 'C', 'c0'], ['MinimumTrials', rnd.randint(3, 7)],
+            ['AtMostKInARow', 1, 'R', 'r0'], ['Exclude', 'C', 'c1']]
+    cons = {'c': rnd.choice(menu), 'k': rnd.choice(menu)}
+    use = lambda: [x for x in ('@c', '@k') if rnd.random() < 0.6]
+
+    def design(extra):
+        d = 'ABC' + extra
+        if any(c[0] in ('AtMostKInARow',) and c[2] == 'R' for c in cons.values()):
+            d += 'R'
+        return d
+    b1 = cross(design(''), rnd.choice(['AB', 'A', 'B']), use() or ['@c'], rcc=rnd.random() < 0.8)
+    b2 = cross(design(''), 'C', use(), rcc=rnd.random() < 0.8)
+    blocks = {'b1': b1, 'b2': b2}
+    r = rnd.random()
+    if r < 0.5:
+        blocks['m'] = merge(['@b1', '@b2'], mode=rnd.choice(['repeat', 'weight']))
+    if rnd.random() < 0.6:
+        blocks['r'] = repeat('@b1', [['MinimumTrials', rnd.randint(4, 9)]] + ([('@k')] if rnd.random() < 0.3 else []))
+    if rnd.random() < 0.4:
+        blocks['n'] = nest(cross('E', 'E'), '@b2')
+    if len(blocks) == 2:
+        blocks['r'] = repeat('@b2', [['MinimumTrials', rnd.randint(3, 6)]])
+    return {'name': f'random{i}', 'factors': factors, 'constraints': cons, 'blocks': blocks}
+
+
 def _ref(c):
     """corpus helpers turn '@c' into ['@', 'c']; undo that."""
     if isinstance(c, list) and c and c[0] == '@':
@@ -286,7 +317,11 @@ def run(ctx):
                       'sustain_within_block', 'cross_block.Nest (copying of outer constraints)', 'cross_block.Merge / Repeat',
                       'cross_block._desugar_factors_with_weights']
     scs = scenarios(ctx.tier)
-    ctx.bounds = {'scenarios': [s['name'] for s in scs], 'orders': 'every construction order that respects block references'}
+    if ctx.tier == 'thorough':
+        import random
+        rnd = random.Random(ctx.seed * 15485863 + 11)
+        scs = scs + [random_scenario(rnd, i) for i in range(60)]
+    ctx.bounds = {'scenarios': [s['name'] for s in scs if not s['name'].startswith('random')] + (['60 seeded random sharing patterns'] if ctx.tier == 'thorough' else []), 'orders': 'every construction order that respects block references'}
     ctx.outside += ['more than 3 blocks per scenario / 5 for the Merge scenario', 'sharing patterns not listed']
     ctx.assumptions += ['z3/CryptoMiniSat sound']
     ctx.rule = 'one case per (scenario, order, block); non-trivial = both builds construct'
